@@ -451,6 +451,9 @@ pub async fn run_cl(tok: &[&str]) -> String {
         entries.sort_by_key(|e| class(e));
         out.push(if entries.is_empty() { "-".to_string() } else { entries.join(";") });
     };
+    // submissions whose sender had to wait for queue capacity (`send().await` on a full queue): the
+    // moment at which the task sees such an entry depends on when the waiting sender is polled again
+    let mut waited = 0usize;
     if tok[5] != "-" {
         for step in tok[5].split(',') {
             let (op, rest) = step.split_at(1);
@@ -470,6 +473,9 @@ pub async fn run_cl(tok: &[&str]) -> String {
                             "L" => f.set_decode_level(decode_level(rest)).map_err(|_| ()),
                             _ => {
                                 // shutdown has no try variant: spawn the send
+                                if rodbus::verif::free_queue_slots(ch) == 0 {
+                                    waited += 1;
+                                }
                                 let ch = ch.clone();
                                 tokio::spawn(async move {
                                     let _ = ch.shutdown().await;
@@ -499,6 +505,9 @@ pub async fn run_cl(tok: &[&str]) -> String {
                     if let Some(Some(ch)) = handles.get(h) {
                         // 'Q' = future style with an AddressRange struct literal (bypasses try_from)
                         let style = if op == "Q" { 'R' } else { op.chars().next().unwrap() };
+                        if style != 'T' && rodbus::verif::free_queue_slots(ch) == 0 {
+                            waited += 1;
+                        }
                         submit(style, ch, &parts[1..], &log, t0, &count, op == "Q");
                     } else {
                         log.lock().unwrap().push(format!("sub.{}.err.nohandle", parts[1]));
@@ -559,5 +568,10 @@ pub async fn run_cl(tok: &[&str]) -> String {
         "alive"
     };
     out.push(format!("fin.{fin}"));
-    out.join(" | ")
+    let line = out.join(" | ");
+    if waited > 0 {
+        format!("{line} waited={waited}")
+    } else {
+        line
+    }
 }
